@@ -77,7 +77,8 @@ PROPS = {
                      "Sqlize.Table.walkIdx_refines", "Sqlize.Table.walkFk_refines", "Sqlize.Table.diff_elems",
                      "Sqlize.C01.indexes_with_dropped_columns", "Sqlize.Abs.Idx.plan_correct", "Sqlize.Abs.Idx.emitSup_correct", "Sqlize.Abs.Idx.dropCols_idxs",
                      "Sqlize.Table.walkIdx_refines_sup", "Sqlize.Spec.execAll_wf",
-                     "Sqlize.C01.equal_column_untouched", "Sqlize.Table.walkCols_about", "Sqlize.Table.diffCols1_unchanged_mem"],
+                     "Sqlize.C01.equal_column_untouched", "Sqlize.Table.walkCols_about", "Sqlize.Table.diffCols1_unchanged_mem",
+                     "Sqlize.C01.equal_primary_key_untouched"],
         "suites": [{"name": "pair"}],
         "corr_points": ["load-old", "load-new", "state-old", "state-new", "Diff", "state-diff", "StringUp"],
         "rule": PAIR_RULE,
